@@ -82,10 +82,22 @@ def inline_pure(prog, e, depth=0):
     return e
 
 
+def _some_of_checked(e):
+    """(a.checked_mul(b) as Some).0 is the exact product a * b (likewise checked_add)"""
+    if not isinstance(e, tuple) or not e:
+        return e
+    e = tuple(_some_of_checked(x) if isinstance(x, tuple) else x for x in e)
+    if e[0] == "field" and str(e[2]) == "0" and isinstance(e[1], tuple) and e[1] and e[1][0] == "variant":
+        inner = strip_widen(e[1][1])
+        if inner[0] == "call" and inner[1] in ("checked_mul", "checked_add") and len(inner[2]) == 2:
+            return ("exact", ("bin", "Mul" if inner[1] == "checked_mul" else "Add", inner[2][0], inner[2][1]))
+    return e
+
+
 def expand_facts(prog, fn, sym, facts):
     """adds facts implied by `opt.map_or(default, closure) == v` for opt = checked_mul(a, b);
     helper functions that are one expression of their parameters are inlined first"""
-    facts = [(inline_pure(prog, c_), v_) for c_, v_ in facts]
+    facts = [(_some_of_checked(inline_pure(prog, c_)), v_) for c_, v_ in facts]
     out = list(facts)
     for cond, val in facts:
         c = cond
@@ -557,6 +569,11 @@ def constructors_validate(rep, prog, rule):
             names = [x[0] for x in adt["variants"][0]["fields"]]
             ops = {nm: sym.operand(o) for nm, o in zip(names, st[2][4])}
             key = "%s|%s" % (f.name, st[2][2].rsplit("::", 1)[-1])
+            if not all(nm in names for nm in ("left", "top", "width", "height")):
+                rep.unk(rule, key, st[3], "%s no longer stores left / top / width / height itself (fields: "
+                        "%s): where its rectangle is validated was not followed" % (
+                            st[2][2].rsplit("::", 1)[-1], ", ".join(names)))
+                continue
             # find a dominating check_crop_box call whose `?`-continue edge dominates b
             found = None
             found_args = None
